@@ -3,6 +3,8 @@ package main
 import (
 	"fmt"
 	"go/constant"
+	"go/token"
+	"go/types"
 	"os"
 	"strings"
 
@@ -206,7 +208,7 @@ func failureReachesSuccess(fn *ssa.Function, call *ssa.Call, ev ssa.Value) []Wit
 	// an error classified as harmless (os.IsNotExist / os.IsExist on that very error) is handled
 	RR := NewRenderer(fn)
 	evs := RR.V(ev)
-	handled := atomEdges(fn, RR, "os.IsNotExist("+evs+")", "os.IsExist("+evs+")")
+	handled := atomEdges(fn, RR, "os.IsNotExist("+evs+")", "os.IsExist("+evs+")", eqAtom(evs, "io.EOF"))
 	ws := afterEdge(fn, nonNil, nil, handled, func(in ssa.Instruction) bool {
 		r, ok := in.(*ssa.Return)
 		if !ok || ei >= len(r.Results) {
@@ -215,6 +217,12 @@ func failureReachesSuccess(fn *ssa.Function, call *ssa.Call, ev ssa.Value) []Wit
 		v := r.Results[ei]
 		if provablyNonNilError(v) || sameValue(v, ev) {
 			return false
+		}
+		// a variable that collects errors (lastErr = err) carries this error to the return
+		for _, x := range phiInputs(strip(v)) {
+			if x == strip(ev) || sameValue(x, ev) {
+				return false
+			}
 		}
 		if isNilConst(strip(v)) {
 			return true
@@ -393,6 +401,89 @@ func ruleC08Commit(c *Ctx) {
 					c.Guard(rule, cl, []ssa.Instruction{rm}, "cleanup removes new files", nil, atom("only when the commit did not happen (!done)", "!^var(bool)"))
 				}
 			}
+		}
+	}
+	// revertDisk: once volume.meta names the new head, nothing may remove the new head any more.
+	// A deferred cleanup that removes files must be switched off by a flag that is set
+	// immediately after the commit (before any step that can still fail).
+	if fn := c.Anchor(rule, fRep+"revertDisk"); fn != nil {
+		R := NewRenderer(fn)
+		var commit ssa.Instruction
+		for _, e := range CallsTo(fn, fRep+"encodeToFile") {
+			// the commit writes the new description (a local copy), not r.info (the roll-back)
+			if r := callRender(R, e); strings.Contains(r, `"volume.meta"`) && !strings.Contains(r, "&$0.info,") {
+				commit = e
+			}
+		}
+		ncl := 0
+		for _, cl := range Closures(fn) {
+			deferred := false
+			eachInstr(fn, func(in ssa.Instruction) {
+				if d, ok := in.(*ssa.Defer); ok {
+					if mc, ok := d.Call.Value.(*ssa.MakeClosure); ok && mc.Fn == ssa.Value(cl) {
+						deferred = true
+					}
+				}
+			})
+			rms := CallsTo(cl, fRep+"rmDisk")
+			if !deferred || len(rms) == 0 {
+				continue
+			}
+			ncl++
+			CR := NewRenderer(cl)
+			for i, rm := range rms {
+				key := fmt.Sprintf("%s | deferred cleanup rmDisk[%d]", FnName(fn), i)
+				// guarding flag: a captured bool tested false on the way
+				var flag *ssa.Alloc
+				for _, b := range cl.Blocks {
+					iff, ok := b.Instrs[len(b.Instrs)-1].(*ssa.If)
+					if !ok {
+						continue
+					}
+					cond := iff.Cond
+					if u, ok := cond.(*ssa.UnOp); ok && u.Op == token.NOT {
+						cond = u.X
+					}
+					if ld, ok := cond.(*ssa.UnOp); ok && ld.Op == token.MUL {
+						if fv, ok := ld.X.(*ssa.FreeVar); ok && isBoolType(ld.Type()) {
+							flag = freeVarAlloc(cl, fv)
+						}
+					}
+				}
+				if flag == nil || commit == nil {
+					c.Bad(rule, key, c.P.InstrPos(rm), "a deferred cleanup removes "+callRender(CR, rm)+" without a commit flag", nil)
+					continue
+				}
+				var sets []ssa.Instruction
+				eachInstr(fn, func(in ssa.Instruction) {
+					if s, ok := in.(*ssa.Store); ok && s.Addr == ssa.Value(flag) {
+						if cst, ok := s.Val.(*ssa.Const); ok && cst.Value != nil && cst.Value.String() == "true" {
+							sets = append(sets, in)
+						}
+					}
+				})
+				ws := afterEdge(fn, successEdgesOfCall(fn, commit), func(in ssa.Instruction) bool {
+					for _, s := range sets {
+						if s == in {
+							return true
+						}
+					}
+					return false
+				}, nil, func(in ssa.Instruction) bool {
+					if _, ok := in.(*ssa.Return); ok {
+						return true
+					}
+					return isPlainCall(in) && in != commit && errOfCall(in) != nil
+				})
+				if len(ws) == 0 {
+					c.OK(rule, key, c.P.InstrPos(rm), "the cleanup is switched off right after the volume.meta commit", true)
+				} else {
+					c.Bad(rule, key, c.P.InstrPos(rm), "after volume.meta was committed a step that can fail (or a return) is reachable while the deferred cleanup is still armed: a late failure deletes the head that volume.meta already names", c.witness(ws[0]))
+				}
+			}
+		}
+		if ncl == 0 {
+			c.OK(rule, FnName(fn)+" | no deferred removal", c.P.Pos(fn.Pos()), "revertDisk has no deferred cleanup that removes chain files", false)
 		}
 	}
 	if fn := c.Anchor(rule, fRep+"RemoveDiffDisk"); fn != nil {
@@ -591,4 +682,153 @@ func isDeferOrGo(in ssa.Instruction) bool {
 		return true
 	}
 	return false
+}
+
+// ruleErrFlow: generic error-flow discipline over the whole module.  In a function that itself
+// reports errors, a call whose error is nil-tested must not lead, from its failure edge, to a
+// success return — the "tested, logged, forgotten" slip (shadowed variable, wrong variable in
+// the test, lost return).  The instances that exist on the confirmed tree are frozen below, one
+// reason each; any other instance is a violation.
+var errFlowAllowed = map[string]string{
+	"(*controller.Controller).ReadAt | (*controller.replicator).ReadAt":                                               "a read error of a failed reader is suppressed when a RW replica remains (C04-ERRSUPPRESS / C05-DETACH decide when)",
+	"(*controller.Controller).WriteAt | (*controller.replicator).WriteAt":                                             "majority decoding: n == len(b) and handleErrorNoLock == nil (C02-DECODE)",
+	"(*controller.Controller).Sync | (*controller.replicator).Sync":                                                   "majority decoding: n != -1 (C02-DECODE)",
+	"(*controller.Controller).Unmap | (*controller.replicator).Unmap":                                                 "majority decoding: n != -1 (C02-DECODE)",
+	"(*controller.Controller).Revert | (*replica/client.ReplicaClient).Revert":                                        "per-replica failure marks the replica ERR; the request fails only if no replica reverted",
+	"(*controller.Controller).Shutdown | (*controller.Controller).shutdownFrontend":                                   "best-effort shutdown: both halves are attempted, errors logged",
+	"(*controller.Controller).Shutdown | (*controller.Controller).shutdownBackend":                                    "best-effort shutdown: both halves are attempted, errors logged",
+	"(*controller.replicator).ReadAt | invoke:io.ReaderAt.ReadAt":                                                     "fail-over: the failed reader is recorded and the next reader tried (C04-READSRC)",
+	"(*controller.replicator).RemainSnapshots | invoke:types.Backend.RemainSnapshots":                                 "minimum over the backends that answer; error only if none did",
+	"(*replica.Replica).readRevisionCounter | (*github.com/openebs/sparse-tools/sparse.DirectFileIoProcessor).ReadAt": "io.EOF of a short counter file is not an error (second conjunct of the test)",
+	"(*sync.Task).AddReplica | (*controller/client.ControllerClient).Register":                                        "registration is retried on the ticker until the controller answers",
+	"(*sync.Task).CloneReplica | (*controller/client.ControllerClient).ListReplicas":                                  "retry loop (2 s)",
+	"(*sync.Task).CloneReplica | (*sync.Task).syncFiles":                                                              "retry loop (2 s); success needs a later successful copy (C19-CLONE-ORDER)",
+	"app.lsReplica | app.getChain":                                                                                    "CLI listing: a replica whose chain cannot be fetched is printed without it",
+	"replica.preload | (*replica.UsedGenerator).Err":                                                                  "generator.Err() is called twice: tested, then returned",
+}
+
+// errFlowConvention: callee-wide conventions (any caller).
+var errFlowConvention = map[string]string{
+	"controller/rest.DencodeID": "REST handlers answer an undecodable id with 404 and return nil",
+}
+
+func ruleErrFlow(rule string) ruleFn {
+	return func(c *Ctx) {
+		c.Doc(rule, "module-wide error flow: in every function with an error result, from the err != nil edge of a nil-tested call no success return is reachable (returning that error, a fresh error, or a value dominated by its own non-nil test are error returns; os.IsNotExist/IsExist classifications are handled); the log-and-continue sites of the confirmed tree are an explicit table")
+		n := 0
+		for _, fn := range prodFns(c.P) {
+			if errResultIndex(fn) < 0 {
+				continue
+			}
+			R := NewRenderer(fn)
+			eachInstr(fn, func(in ssa.Instruction) {
+				cl, ok := in.(*ssa.Call)
+				if !ok {
+					return
+				}
+				ev := errOfCall(in)
+				if ev == nil {
+					return
+				}
+				// callees of this module (functions, methods, methods of its interfaces): the error
+				// vocabulary the properties talk about; library primitives are the business of C08-ERR
+				if cc := cl.Call; cc.IsInvoke() {
+					if n, ok := cc.Value.Type().(*types.Named); !ok || n.Obj().Pkg() == nil || !isJivaPkg(n.Obj().Pkg()) {
+						if !(cc.Method.Name() == "ReadAt" && strings.HasPrefix(FnName(fn), fRepl)) {
+							return
+						}
+					}
+				} else if h := cc.StaticCallee(); h == nil || !isJivaFn(h) {
+					return
+				}
+				ws := failureReachesSuccess(fn, cl, ev)
+				_, nonNil := nilTestEdges(fn, ev)
+				tested := false
+				for _, b := range fn.Blocks {
+					for k := range b.Succs {
+						if nonNil(b, k) {
+							tested = true
+						}
+					}
+				}
+				if !tested {
+					return
+				}
+				n++
+				key := FnName(fn) + " | " + CalleeName(in)
+				_ = R
+				if len(ws) == 0 {
+					c.OK(rule, key, c.P.InstrPos(in), "failure edge reaches error returns only", true)
+					return
+				}
+				if why, ok := errFlowConvention[CalleeName(in)]; ok {
+					c.OK(rule, key+" | convention", c.P.InstrPos(in), why, false)
+					return
+				}
+				if why, ok := errFlowAllowed[key]; ok {
+					c.OK(rule, key+" | tolerated", c.P.InstrPos(in), "frozen exception: "+why, false)
+					return
+				}
+				c.Bad(rule, key, c.P.InstrPos(in), "the error of this call is tested, but from its failure edge the function can still report success (error logged and lost / tested through a shadowed or wrong variable / missing return)", c.witness(ws[0]))
+			})
+		}
+		if n < 100 {
+			c.Undecided(rule, "vacuity-floor", "", fmt.Sprintf("only %d nil-tested fallible calls found", n))
+		}
+	}
+}
+
+// ruleC08Order: small ordering obligations of individual storage functions.
+func ruleC08Order(rule string) ruleFn {
+	return func(c *Ctx) {
+		c.Doc(rule, "hardlinkDisk removes an existing target only after the source was found; initRevisionCounter writes the initial counter only on the path on which the counter file did not exist; initUUID rewrites volume.meta only after ReadInfo succeeded; os.Rename is used only to install a fully written temporary file (encodeToFile, util); linkDisk publishes the snapshot names with os.Link, leaving the head's names in place until the commit")
+		if fn := c.Anchor(rule, fRep+"hardlinkDisk"); fn != nil {
+			R := NewRenderer(fn)
+			rm := CallsTo(fn, "os.Remove")
+			src := "os.Stat(" + fRep + "diskPath($0,$2))#1"
+			c.Guard(rule, fn, rm, "remove existing target", nil, atom("source exists", isNilAtom(src)))
+			c.Guard(rule, fn, CallsTo(fn, "os.Link"), "link", nil, atom("source exists", isNilAtom(src)))
+			_ = R
+		}
+		if fn := c.Anchor(rule, fRep+"initRevisionCounter"); fn != nil {
+			R := NewRenderer(fn)
+			st := "os.Stat(" + fRep + `diskPath($0,"revision.counter"))#1`
+			c.Guard(rule, fn, CallsTo(fn, fRep+"writeRevisionCounter"), "initialise counter", nil,
+				atom("counter file does not exist", "os.IsNotExist("+st+")"))
+			// the cache receives what was read; a failed read is an error
+			for _, s := range StoresTo(fn, "Replica", "revisionCache") {
+				if v := R.V(s.(*ssa.Store).Val); v != fRep+"readRevisionCounter($0)#0" {
+					c.Bad(rule, FnName(fn)+" | cache = value read", c.P.InstrPos(s), "cache receives "+v, nil)
+				} else {
+					c.Guard(rule, fn, []ssa.Instruction{s}, "cache = value read", nil, okcall(fRep+"readRevisionCounter"))
+				}
+			}
+			c.Guard(rule, fn, successReturns(fn), "return success", nil, okcall(fRep+"readRevisionCounter"))
+		}
+		if fn := c.Anchor(rule, fSrv+"initUUID"); fn != nil {
+			c.Guard(rule, fn, CallsTo(fn, fRep+"writeVolumeMetaData", fRep+"encodeToFile"), "rewrite volume.meta", nil, okcall("replica.ReadInfo"))
+		}
+		for _, fn := range prodFns(c.P) {
+			for _, in := range AnyCallsTo(fn, "os.Rename") {
+				switch FnName(fn) {
+				case fRep + "encodeToFile", "util.DuplicateDevice", "util.removeAsync":
+					c.OK(rule, FnName(fn)+" | os.Rename", c.P.InstrPos(in), "installs a completely written temporary file / allow-listed", false)
+				default:
+					if strings.HasPrefix(FnName(fn), "util.") {
+						c.OK(rule, FnName(fn)+" | os.Rename", c.P.InstrPos(in), "util helper", false)
+					} else {
+						c.Bad(rule, FnName(fn)+" | os.Rename", c.P.InstrPos(in), "a chain file is moved instead of linked: between the move and the volume.meta commit the name that volume.meta refers to does not exist", nil)
+					}
+				}
+			}
+		}
+		if fn := c.Anchor(rule, fRep+"linkDisk"); fn != nil {
+			if n := len(CallsTo(fn, "os.Link")); n == 2 {
+				c.OK(rule, FnName(fn)+" | data and metadata linked", c.P.Pos(fn.Pos()), "two os.Link calls", false)
+			} else {
+				c.Bad(rule, FnName(fn)+" | data and metadata linked", c.P.Pos(fn.Pos()), fmt.Sprintf("expected os.Link for the data file and for its metadata, found %d", n), nil)
+			}
+		}
+		c.Floor(rule, 8)
+	}
 }
